@@ -35,7 +35,8 @@ func init() {
 //         fails (SELECT on the tokens table returns a storage error) during the request; optional "~U" / "~X" / "~R" =
 //         the request is made while an authenticate (GET /api/v1/access) of that token is held inside the token
 //         repository (its lookup has returned), "~sU" / "~sX" / "~sR" = while every SQL statement is made to wait (the
-//         connection pool is held) and an authenticate of that token is already waiting; optional "@<value>" = the configured admin token (no space);
+//         connection pool is held) and an authenticate of that token is already waiting; optional "@<src>=<value>" = the configured admin token, percent-encoded, <src> = e (environment) / f (config
+//         file) - both through the real SetDefaults + LoadFlags + Load in a child process - or d (directly);
 //         the route pattern is the one of engine.Routes() (parameters are instantiated by the harness).
 // obs   : "pass"                                   the request was not answered 401
 //         "401 <code> unchanged|CHANGED(<tables>)"  structured 401 (code of the JSON body) and whether the
@@ -46,7 +47,10 @@ func init() {
 type c09Cfg struct {
 	auth, prof, met, fail bool
 	over                  string // "U" / "X" / "R": the request is made while a lookup of that token is in flight
-	admin                 string // configured admin token ("" = the default)
+	admin                 string // configured admin token ("" = the default); the literal the operator configured
+	lite                  bool   // (not part of the name) only a small credential matrix is run in this configuration
+	adminSrc              string // how: "e" environment, "f" config file (both through the real config loading
+	//                              in a child process), "d" written into the AppConfig directly
 }
 
 func (k c09Cfg) String() string {
@@ -64,7 +68,11 @@ func (k c09Cfg) String() string {
 		out += "~" + k.over
 	}
 	if k.admin != "" {
-		out += "@" + k.admin
+		src := k.adminSrc
+		if src == "" {
+			src = "d"
+		}
+		out += "@" + src + "=" + pctEncode(k.admin)
 	}
 	return out
 }
@@ -91,8 +99,11 @@ func c09Configs() []c09Cfg {
 				out = append(out, c09Cfg{auth: true, over: o})
 			}
 			// the admin token is configuration: shorter / as long as / longer than issued tokens, other characters
-			for _, adm := range adminTokenVariants() {
-				out = append(out, c09Cfg{auth: true, admin: adm})
+			for i, adm := range adminTokenVariants() {
+				out = append(out, c09Cfg{auth: true, admin: adm, adminSrc: []string{"e", "f"}[i%2]})
+				if strings.Contains(adm, "$") { // a literal '$': through both sources
+					out = append(out, c09Cfg{auth: true, admin: adm, adminSrc: []string{"f", "e"}[i%2], lite: true})
+				}
 			}
 		}
 	}
@@ -103,6 +114,9 @@ type c09Route struct{ Method, Path string }
 
 var c09Pause = &tokPauser{}
 
+// set by c09Build when the service's configuration loading failed for the configured admin token
+var c09CfgLoadFailure string
+
 func c09Build(k c09Cfg, dir string) (*FullStack, []c09Route, error) {
 	if k.met {
 		if _, on := metrics.Get(); !on {
@@ -111,7 +125,17 @@ func c09Build(k c09Cfg, dir string) (*FullStack, []c09Route, error) {
 	} else if _, on := metrics.Get(); on {
 		return nil, nil, fmt.Errorf("metrics already enabled in this process; metrics-off configuration %s cannot be built", k)
 	}
-	s, err := NewStack(StackOpts{Dir: dir, UseAuth: k.auth, Profiling: k.prof, AdminToken: k.admin})
+	var mutate func(*config.AppConfig)
+	c09CfgLoadFailure = ""
+	if k.admin != "" {
+		// the stack gets the value the service's own configuration loading yields for the configured literal
+		eff, ok := effectiveAdminToken(os.TempDir(), k.admin, k.adminSrc)
+		if !ok {
+			c09CfgLoadFailure, eff = eff, k.admin
+		}
+		mutate = func(cf *config.AppConfig) { cf.HTTP.AuthToken = eff }
+	}
+	s, err := NewStack(StackOpts{Dir: dir, UseAuth: k.auth, Profiling: k.prof, Mutate: mutate})
 	if err != nil {
 		return nil, nil, err
 	}
@@ -401,11 +425,17 @@ func (e *c09Env) open(k c09Cfg, dir string) error {
 	}
 	e.k, e.fs, e.routes = k, fs, rs
 	e.A = fs.Cfg.HTTP.AuthToken
+	if k.admin != "" {
+		e.A = k.admin // what the operator configured is what is presented
+	}
 	e.X = c10Unknown("X")
 	// Fixture steps.  A step that fails because the implementation misbehaves is recorded in e.setup (it becomes
 	// the observable of the "SETUP" case of this configuration) and the run goes on as far as possible; only a
 	// failure of the harness's own infrastructure (NewStack above) aborts.
 	e.setup = nil
+	if c09CfgLoadFailure != "" {
+		e.setup = append(e.setup, "config-load-of-admin-token:"+c09CfgLoadFailure)
+	}
 	fail := func(format string, a ...interface{}) { e.setup = append(e.setup, fmt.Sprintf(format, a...)) }
 	// the fixture tokens are made through the service layer (not through the API under test)
 	mk := func(what string) string {
@@ -701,7 +731,12 @@ func c09ParseInput(in string) (k c09Cfg, r c09Route, hdr string, err error) {
 	k = c09Cfg{auth: cf[0] == '1', prof: cf[1] == '1', met: cf[2] == '1'}
 	cf = cf[3:]
 	if i := strings.Index(cf, "@"); i >= 0 {
-		k.admin, cf = cf[i+1:], cf[:i]
+		a := cf[i+1:]
+		cf = cf[:i]
+		if len(a) < 3 || a[1] != '=' {
+			return k, r, "", fmt.Errorf("bad admin token in %q", in)
+		}
+		k.adminSrc, k.admin = a[:1], pctDecode(a[2:])
 	}
 	if strings.HasPrefix(cf, "f") {
 		k.fail, cf = true, cf[1:]
@@ -758,6 +793,7 @@ func runC09(c *Ctx) error {
 	}
 	seen := map[string]bool{}
 	ncase := 0
+	prewarmAdminTokens(os.TempDir())
 	for i, k := range c09Configs() {
 		if err := e.open(k, filepath.Join(base, fmt.Sprint(i))); err != nil {
 			return err
@@ -814,6 +850,14 @@ func runC09(c *Ctx) error {
 			}
 			creds = []c09Cred{{"=Bearer $X", "unknown"}, {"=Bearer $R", "revoked"}, {"=Bearer $U", "user"}, {"=Bearer $A", "admin"},
 				{"-", "none"}, {"=Bearer $U x", "extra-parts"}, {"=Bearer $X$U", "unknown"}}
+		case k.admin != "" && k.lite && !c.Thorough():
+			routes = nil
+			for _, r := range e.routes {
+				if r.Path == "/api/v1/access" || r.Path == "/api/v1/chain/tip/longest" {
+					routes = append(routes, r)
+				}
+			}
+			creds = []c09Cred{{"=Bearer $A", "admin"}, {"=Bearer $U", "user"}, {"=Bearer $X", "unknown"}, {"-", "none"}, {"=Bearer $A x", "extra-parts"}, {"=bearer $A", "wrong-scheme"}}
 		case k.admin != "" && !c.Thorough():
 			routes = nil
 			for _, r := range e.routes {
@@ -847,6 +891,9 @@ func runC09(c *Ctx) error {
 			nrand := c.Pick(150, 5000)
 			if k.admin != "" {
 				nrand = c.Pick(20, 500)
+				if k.lite {
+					nrand = c.Pick(0, 100)
+				}
 			}
 			for j, n := 0, nrand; j < n && len(rep) > 0; j++ {
 				var sb strings.Builder
